@@ -84,6 +84,9 @@ class Engine:
         from .tr import tuple_eq_axioms
         ax = smt.class_axioms() + pow_axioms() + strip_axioms() + heap_wf_axioms(self.h0) + tuple_eq_axioms()
         ax += self.axioms
+        if "list_eq" in getattr(self.reg, "axiom_sets", ()):
+            from .tr import list_eq_axioms
+            ax += list_eq_axioms()
         for cls_name, (attr, file) in getattr(self.reg, "eq_by", {}).items():
             from .tr import eq_by_axioms
             self.check_eq_by(cls_name, attr, file)
@@ -349,6 +352,22 @@ class Engine:
             defs.append(name)
         for name in defs:
             sp = self.specs[name]
+            if sp["opaque"] and getattr(sp["sf"], "axioms", None):
+                # definitional axioms of an uninterpreted spec function (contract text over its parameters), for every heap and all
+                # arguments; triggered by the application itself.  They are ASSUMED (listed in the evidence).
+                hp = Heap({n: z3.Const("h_%s" % n, HEAP_SORTS[n]) for n in HEAP_NAMES}, z3.Int("h_alloc"))
+                env, args = {}, []
+                for pn, k in sp["params"]:
+                    c = z3.Const("p_%s" % pn, KIND_SORT[k])
+                    env[pn] = T(k, c)
+                    args.append(c)
+                allargs = (hp.spec_args() if sp["heap"] else []) + args
+                app = sp["f"](*allargs)
+                for text in sp["sf"].axioms:
+                    ec = EC(St(dict(env), hp, []), spec=True)
+                    body = self.tb(self.ev(ast.parse(text.strip(), mode="eval").body, ec), ec)
+                    self.axioms.append(z3.ForAll(allargs, body, patterns=[app]))
+                self.assumptions.add("definitional axioms of the ghost function %s: %s" % (name, "; ".join(sp["sf"].axioms)))
             if sp["opaque"] or getattr(sp["sf"], "hide", False):
                 continue
             if getattr(sp["sf"], "fuel", 0):
@@ -500,6 +519,11 @@ class Engine:
         if m is None:
             raise OutOfSubset("expression %s at line %s" % (type(e).__name__, getattr(e, "lineno", "?")))
         return m(e, ec)
+
+    def ev_Lambda(self, e, ec):
+        # a lambda is only ever handed on (e.g. `key=` of sorted); calling it is not modelled here - the lambda itself can be put
+        # under contract as `<enclosing function>.<lambda>`
+        return T("fn", ("lambda", e))
 
     def ev__Const(self, e, ec):
         return e.val
@@ -889,6 +913,21 @@ class Engine:
     def binop(self, op, a, b, ec, line):
         num = ("i", "b", "r")
         h = ec.st.heap
+        if isinstance(op, ast.Mult) and a.k == "lit" and a.meta == "list" and len(a.t) == 1 and (b.k in ("i", "b") or b.k == "V"):
+            # [x] * n: a new list of max(n, 0) items, all x
+            if b.k == "V":
+                ec.may_raise(z3.Not(smt.is_intlike(b.t)), "TypeError", line, "list repeat count must be int")
+                cnt = smt.num_int(b.t)
+            else:
+                cnt = as_int(b)
+            item = toV(self.mat(a.t[0], ec))
+            r = self.new_ref(ec, "list")
+            arr = fresh("rep", smt.ArrIV)
+            i = z3.Int("i!")
+            ln = z3.If(cnt > 0, cnt, 0)
+            ec.st.assume(z3.ForAll([i], z3.Implies(z3.And(i >= 0, i < ln), arr[i] == item), patterns=[arr[i]]))
+            self.list_set_all(ec, r, ln, arr)
+            return tV(V.ref(r))
         if a.k in num and b.k in num:
             isreal = a.k == "r" or b.k == "r"
             if isinstance(op, (ast.Add, ast.Sub, ast.Mult)):
@@ -1382,10 +1421,20 @@ class Engine:
         st.assume(_forall([j], z3.Implies(z3.And(j >= 0, j < m_), z3.And(src(j) >= 0, src(j) < n, cond_src, arr[j] == val_src,
                                                                         pos(src(j)) == j)), [arr[j]]))
         st.assume(_forall([j], z3.Implies(z3.And(j >= 0, j + 1 < m_), src(j) < src(j + 1)), [src(j)]))
+        j2 = z3.Int("cj2!")
+        # (the same fact for arbitrary pairs: what induction over the successor form gives)
+        st.assume(z3.ForAll([j, j2], z3.Implies(z3.And(j >= 0, j < j2, j2 < m_), src(j) < src(j2)), patterns=[z3.MultiPattern(src(j), src(j2))]))
         # completeness: every source item that passes the filter has its position in the result
         cond_q, val_q = at(q)
         src_item = get(q)
+        from .tr import _mentions
         trig = toV(src_item) if not isinstance(src_item, tuple) else None
+        if trig is None:
+            # a tuple item (enumerate / zip / items): a component that is a heap read at the quantified position serves as trigger
+            for part in src_item[1]:
+                if isinstance(part, T) and part.k == "V" and z3.is_app(part.t) and part.t.decl().kind() == z3.Z3_OP_SELECT and _mentions(part.t, q):
+                    trig = part.t
+                    break
         body = z3.Implies(z3.And(q >= 0, q < n, cond_q), z3.And(pos(q) >= 0, pos(q) < m_, src(pos(q)) == q, arr[pos(q)] == val_q))
         st.assume(_forall([q], body, [trig] if trig is not None else [pos(q)]))
         st.assume(_forall([q], body, [pos(q)]))
@@ -1469,6 +1518,10 @@ class Engine:
             self.bind_for_target(gen.target, get(q), ecq, e.lineno)
             vq = self.ev(e.elt, ecq)
             st.assume(_forall([q], z3.Implies(z3.And(q >= 0, q < n), arr[q] == toV(vq)), [arr[q]]))
+            src_q = get(q)
+            if not isinstance(src_q, tuple) and src_q.k == "V":
+                # also triggered by the source item: facts about all result items (e.g. a maximum) reach statements about the source
+                st.assume(_forall([q], z3.Implies(z3.And(q >= 0, q < n), arr[q] == toV(vq)), [src_q.t]))
         return tV(V.ref(r))
 
     # ==================================================================================================
@@ -1919,6 +1972,59 @@ class Engine:
         return T("b", z3.And([h.a[n] == o.a[n] for n in HEAP_NAMES]))
 
     # -- python built-ins ------------------------------------------------------------------------
+    @staticmethod
+    def _as_listcomp(a):
+        if isinstance(a, ast.GeneratorExp):
+            return ast.copy_location(ast.ListComp(elt=a.elt, generators=a.generators), a)
+        return a
+
+    def bi_max(self, e, ec):
+        """max(<list or generator of numbers>): the largest item; ValueError on an empty sequence"""
+        if len(e.args) != 1 or e.keywords:
+            raise OutOfSubset("max() with several arguments / key (line %d)" % e.lineno)
+        if ec.guard:
+            raise OutOfSubset("max() under a short-circuit guard (line %d)" % e.lineno)
+        l = toV(self.mat(self.ev(self._as_listcomp(e.args[0]), ec), ec))
+        if not self.must(ec.st, is_listlike(l)):
+            raise OutOfSubset("max() of a value not known to be a list (line %d)" % e.lineno)
+        h = ec.st.heap
+        r = V.rv(l)
+        n = h.llen(r)
+        arr = h.sel("lel", r)
+        j = z3.Int("j!")
+        from .tr import forall as _forall
+        ec.may_raise(n == 0, "ValueError", e.lineno, "max() of an empty sequence")
+        ec.may_raise(z3.Exists([j], z3.And(j >= 0, j < n, z3.Not(smt.is_num(arr[j])))), "TypeError", e.lineno, "max() over non-numbers is not modelled")
+        m = fresh("max", V)
+        w = fresh("max_at", IntS)
+        ec.assume(z3.Implies(n > 0, z3.And(w >= 0, w < n, m == arr[w])))
+        ec.assume(_forall([j], z3.Implies(z3.And(j >= 0, j < n), smt.num_real(arr[j]) <= smt.num_real(m)), [arr[j]]))
+        return tV(m)
+
+    def bi_next(self, e, ec):
+        """next(<generator expression>, default): the first produced item, else the default"""
+        if len(e.args) != 2 or not isinstance(e.args[0], ast.GeneratorExp) or e.keywords:
+            raise OutOfSubset("next() other than next(<generator expression>, default) (line %d)" % e.lineno)
+        l = toV(self.mat(self.ev(self._as_listcomp(e.args[0]), ec), ec))
+        d = toV(self.mat(self.ev(e.args[1], ec), ec))
+        h = ec.st.heap
+        r = V.rv(l)
+        return tV(z3.If(h.llen(r) > 0, h.lget(r, 0), d))
+
+    def lib_random_choice(self, e, ec):
+        """random.choice(seq): SOME item of the sequence (every outcome of the tie-break); IndexError on an empty one"""
+        l = toV(self.mat(self.ev(e.args[0], ec), ec))
+        if not self.must(ec.st, is_listlike(l)):
+            raise OutOfSubset("random.choice of a value not known to be a list (line %d)" % e.lineno)
+        h = ec.st.heap
+        r = V.rv(l)
+        n = h.llen(r)
+        ec.may_raise(n == 0, "IndexError", e.lineno, "random.choice of an empty sequence")
+        w = fresh("choice_at", IntS)
+        ec.assume(z3.Implies(n > 0, z3.And(w >= 0, w < n)))
+        self.assumptions.add("random.choice(seq) returns an arbitrary item of seq (all outcomes of the tie-break are covered)")
+        return tV(h.lget(r, w))
+
     def bi_len(self, e, ec):
         x = normT(self.ev(e.args[0], ec))
         if x.k == "lit":
@@ -2923,6 +3029,11 @@ class Engine:
             oenv["recv"] = recv
         for j_, a_ in enumerate(args):
             oenv["arg%d" % j_] = a_
+        for kn_, kd_ in desc.get("kw_defaults", {}).items():
+            oenv["kw_" + kn_] = self.py_const(kd_, ec)
+        for kn_, kv_ in kwargs.items():
+            if kv_.k != "fn":
+                oenv["kw_" + kn_] = kv_
         pre_o = St(dict(oenv), ec.st.heap.copy(), list(ec.st.pc), ghost=dict(ec.st.ghost))
         if desc.get("assigns") is not None:
             # assumed frame: only the listed objects / attributes (of the receiver and arguments) change
